@@ -49,6 +49,7 @@ def world(I, has_seg=False, lineage=True, inv=("forest", "trackids", "b1", "b2")
     ctx = I.ctx
     I.ext.update(EXT)
     W = make_tracks(I, has_seg=has_seg, lineage=lineage)
+    W.ctx = ctx
     K = T.Keys(W)
     W.K = K
     v = W.st.v
